@@ -1,6 +1,7 @@
 (* C16 - Search lands on a real, nearest occurrence in the requested direction.
-   Statements only; proofs are in Proofs/C16_MatchFacts.v and
-   Proofs/C16_SearchFacts.v.  Vocabulary (Model/C16_SearchSpec.v):
+   Statements only; proofs are in Proofs/C16_MatchFacts.v,
+   Proofs/C16_SearchFacts.v, Proofs/C16_MoreFacts.v and (re.escape, the parser
+   on escaped patterns, IGNORECASE per character) Proofs/C16_RegexFacts.v.  Vocabulary (Model/C16_SearchSpec.v):
      occurs ceq ic needle text p   text = pre ++ mid ++ post, |pre| = p, mid is the needle
                                    character by character (equal; or related by ceq when ic)
      absent ceq ic needle text     no p with [occurs]
@@ -11,7 +12,8 @@
    quantified in every theorem. *)
 From Coq Require Import ZArith List Bool.
 From PTK Require Import Lib.Sx Lib.Py Model.Document Model.C16_Search Model.C16_SearchSpec
-  Proofs.C16_MatchFacts Proofs.C16_SearchFacts.
+  Proofs.C16_MatchFacts Proofs.C16_SearchFacts Model.C16_Regex Proofs.C16_RegexFacts Proofs.C16_MoreFacts
+  Gen.C16_Sre Gen.C16_CaseFold.
 Import ListNotations.
 Open Scope Z_scope.
 
@@ -469,3 +471,118 @@ Proof.
   cbv zeta. split; [unfold Inv; vm_compute; repeat split; try reflexivity; intro; discriminate|].
   repeat split; vm_compute; reflexivity.
 Qed.
+
+(* ====================================================================== *)
+(* Round 6 *)
+
+(* A forward search with include_current_position=True started ON a match
+   start finds that very match and moves nothing (apply_search returns the
+   buffer as it is); hence Enter on a forward incremental search whose cursor
+   already sits on an occurrence of the typed text stays there. *)
+Theorem C16_forward_on_match_stays : forall ceq b st,
+  Inv b -> sdir st = 0 -> occurs ceq (sic st) (stext st) (entry (wl b) (wi b)) (cur b) ->
+  search ceq b st true 1 = SFound (wi b) (cur b) /\ apply_search ceq b st true 1 = b.
+Proof. exact forward_on_match_stays. Qed.
+Print Assumptions C16_forward_on_match_stays.
+
+Theorem C16_accept_on_match_stays : forall ceq s,
+  Inv (main s) -> searching s = true -> field s <> [] -> ss_dir s = 0 ->
+  occurs ceq (ign s) (field s) (entry (wl (main s)) (wi (main s))) (cur (main s)) ->
+  main (accept_search ceq s) = main s.
+Proof. exact accept_on_match_stays. Qed.
+Print Assumptions C16_accept_on_match_stays.
+
+(* emacs mode with a read-only main buffer ([key_step_ro]): n / N with a
+   count are apply_search(include_current_position=False, count) for the
+   stored state resp. its inversion (no Vi cursor rule) - C16_real,
+   C16_no_skip_*, C16_complete_*, C16_count apply; "/" "?" C-r C-s start a
+   search and move nothing ("/" is BACKWARD under reverse_vi_search_direction);
+   while searching the ordinary bindings apply, so every session theorem above
+   carries over. *)
+Theorem C16_ro_n_is_search : forall ceq s k c s',
+  vi s = false -> searching s = false -> (k = Kn c \/ k = KN c) ->
+  key_step_ro ceq s k = Some s' ->
+  let st := match k with Kn _ => the_state s | _ => invert (the_state s) end in
+  main s' = apply_search ceq (main s) st false c /\
+  ss_text s' = ss_text s /\ ss_dir s' = ss_dir s /\ searching s' = false /\ field s' = field s.
+Proof. exact ro_n_is_search. Qed.
+Print Assumptions C16_ro_n_is_search.
+
+Theorem C16_ro_start_pure : forall ceq s k s',
+  vi s = false -> searching s = false ->
+  (k = KCr \/ k = KCs \/ k = KSlash \/ k = KQuestion) ->
+  key_step_ro ceq s k = Some s' ->
+  main s' = main s /\ searching s' = true /\ ss_text s' = ss_text s /\
+  ss_dir s' = (match k with KCr | KSlash => 1 | _ => 0 end).
+Proof. exact ro_start_pure. Qed.
+Print Assumptions C16_ro_start_pure.
+
+Theorem C16_ro_searching_is_key_step : forall ceq s k,
+  vi s = false -> searching s = true -> key_step_ro ceq s k = key_step ceq s k.
+Proof. exact ro_searching. Qed.
+Print Assumptions C16_ro_searching_is_key_step.
+
+(* ---- what `re.finditer(re.escape(sub), text, flags)` is handed ----
+   (Model/C16_Regex.v over the tables regenerated from the running CPython)
+
+   For EVERY needle, metacharacters included: the sre parser reads
+   re.escape(needle) back as exactly the literal sequence [needle]; compiled
+   under the flags it is one one-character op per needle character, and the op
+   sequence matches at the beginning of a text exactly when [match_at] says so
+   with the relation [ceq_sre].  So the needle is searched literally, and the
+   only thing still assumed about `re` is the search loop of finditer
+   (leftmost, non-overlapping, empty matches at every position) and that the C
+   matcher runs the ops left to right. *)
+Theorem C16_escape_roundtrip : forall needle, parse_literals (re_escape needle) = Some needle.
+Proof. exact parse_escape_roundtrip. Qed.
+Print Assumptions C16_escape_roundtrip.
+
+Theorem C16_escaped_pattern_is_literal : forall ic needle,
+  exists ops, compile_pattern ic (re_escape needle) = Some ops /\ length ops = length needle /\
+              forall s, match_ops ops s = match_at ceq_sre ic needle s.
+Proof. exact escaped_pattern_is_literal. Qed.
+Print Assumptions C16_escaped_pattern_is_literal.
+
+(* ... and the escaping is needed: a pattern that starts with an unescaped
+   special character, `|` or `)` is not a literal sequence for the parser
+   (`{` is one unless a well-formed repeat follows: excluded here) *)
+Theorem C16_unescaped_special_not_literal : forall c r,
+  In c (92 :: 124 :: 41 :: c16_sre_special) -> c <> 92 -> c <> 123 -> parse_literals (c :: r) = None.
+Proof. exact unescaped_special_not_literal. Qed.
+Print Assumptions C16_unescaped_special_not_literal.
+
+(* The relation of re.IGNORECASE between a pattern character and a text
+   character, for ALL code points: reflexive; an uncased pattern character
+   matches only itself; a cased one matches t iff lower(t) = lower(p) or
+   lower(t) is one of sre's extra cases of lower(p); on ASCII x ASCII it is
+   equality after lower-casing the ASCII letters; the executable model's trie
+   version is the same relation; the pairs observed directly on `re` over the
+   harness alphabet (Gen/C16_CaseFold.v) agree with it. *)
+Theorem C16_ignorecase_refl : forall p, ceq_sre p p = true.
+Proof. exact ceq_sre_refl. Qed.
+Print Assumptions C16_ignorecase_refl.
+
+Theorem C16_ignorecase_uncased : forall p t, sre_iscased p = false -> ceq_sre p t = (t =? p).
+Proof. exact ceq_sre_uncased. Qed.
+Print Assumptions C16_ignorecase_uncased.
+
+Theorem C16_ignorecase_cased : forall p t,
+  sre_iscased p = true ->
+  ceq_sre p t = (sre_lower t =? sre_lower p) ||
+                match assocz (sre_lower p) c16_sre_extra with Some fx => memz (sre_lower t) fx | None => false end.
+Proof. exact ceq_sre_cased. Qed.
+Print Assumptions C16_ignorecase_cased.
+
+Theorem C16_ignorecase_ascii : forall p t,
+  0 <= p < 128 -> 0 <= t < 128 -> ceq_sre p t = (ascii_lower p =? ascii_lower t).
+Proof. exact ceq_sre_ascii. Qed.
+Print Assumptions C16_ignorecase_ascii.
+
+Theorem C16_ignorecase_executable : forall p t, ceq_fast p t = ceq_sre p t.
+Proof. exact ceq_fast_eq. Qed.
+Print Assumptions C16_ignorecase_executable.
+
+Theorem C16_ignorecase_observed : forall p t,
+  In p c16_fold_alphabet -> In t c16_fold_alphabet -> ceq_tab p t = ceq_sre p t.
+Proof. exact ceq_sre_observed. Qed.
+Print Assumptions C16_ignorecase_observed.
